@@ -5,14 +5,15 @@ Require Extraction.
 Require Import ExtrOcamlBasic.
 From Coq Require Import List NArith.
 Require Import SP.Base.Str SP.Lib.Quote SP.Lib.Sh SP.Lib.WinCmdline SP.Lib.MsParse.
-Require Import SP.Lib.Path SP.Lib.Env SP.Lib.ExecArgs SP.Lib.Builder SP.Lib.Status SP.Lib.Comm SP.Lib.PopenSM SP.Kernel.CommK SP.Kernel.CommSim.
+Require Import SP.Lib.Path SP.Lib.Env SP.Lib.ExecArgs SP.Lib.Builder SP.Lib.Pipeline SP.Lib.DropOrder SP.Lib.Status SP.Lib.Comm SP.Lib.PopenSM SP.Kernel.CommK SP.Kernel.CommSim.
 Extraction Language OCaml.
 Separate Extraction
   Str.str_eqb Str.strs_eqb
   Quote.debug_exec Quote.debug_pipeline Quote.render Sh.sh_eval Sh.sh_words
   WinCmdline.assemble_cmdline MsParse.parse_args MsParse.parse_progname
   Path.split_path Path.prealloc_capacity Path.candidates Path.search_path_of Path.assemble_exe Path.longest_assembled Path.lookup_and_exec
-  ExecArgs.prepare ExecArgs.conforms Builder.program Builder.cmd Builder.shell
+  ExecArgs.prepare ExecArgs.conforms Builder.program Builder.cmd Builder.shell Builder.apply_op
+  Pipeline.build Pipeline.ppopen Pipeline.setup_comm Pipeline.leaves DropOrder.acts DropOrder.held_at_waits DropOrder.all_held
   Env.format_env Env.format_env_block Status.decode_exit_status Status.encode4 Status.decode4
   Comm.start Comm.step Comm.output CommK.init_world CommSim.serve CommSim.call_eqb
   PopenSM.start_op PopenSM.pstep PopenSM.pserve PopenSM.pcall_eqb PopenSM.settle.
